@@ -24,6 +24,7 @@ Case(t) == [hdr |-> t.hdr, rows |-> t.rows,
               [unique |-> UniqueKeys(t, kk), molten |-> Melt(t, kk).rows, mhdr |-> Melt(t, kk).hdr,
                recast |-> IF Len(t.rows) > 0 THEN Recast(Melt(t, kk), Len(kk), 0) ELSE [hdr |-> <<>>, rows |-> <<>>],
                canonical |-> Canonical(t, kk)]],
+  meltvars |-> MeltVars(t, <<3, 2>>).rows,           \* melt(t, variables=['c', 'b'])
   transpose |-> Transpose(Grid(t)), flat |-> Flatten(t),
   unflatten2 |-> Unflatten(Flatten(t), 2, 0), unflatten4 |-> Unflatten(Flatten(t), 4, 0),
   pivot |-> Pivot(t, 1, 2, 3, 0)]
